@@ -90,6 +90,7 @@ type Path struct {
 	pinMemoGen int
 	fnStack    []*ssa.Function
 	intMode    bool
+	chanSlack  int
 	merged     int
 	params     map[string]int64
 }
